@@ -21,6 +21,8 @@ func c16(c *Ctx) {
 	r.NotDecided = []string{"that the loop never blocks (sends on Warnings / waiter channels) — liveness", "that requests issued afterwards complete",
 		"index/slice/reflect sites of the decode path: decided under C15, of the error path: C17"}
 	r.Rule("R16.P", "every explicit panic / panicking helper / unchecked assertion reachable from the receive goroutine is discharged, accepted with a reason, or a listed finding", 20)
+	r.Rule("R16.I", "every message the transport delivers is handed on and dispatched (as C09 R09.I): requests issued after any server message still complete only if later messages are not filtered away in front of the dispatch", 2)
+	c.everyMessageDispatched("R16.I")
 	r.Rule("R16.D", "dispatch: unknown objects fall into a default arm that neither returns an error nor panics; pong / msgs_ack / new_session_created arms reach no panic", 4)
 	r.Rule("R16.K", "reconnect keeps the key: the EOF arm calls Reconnect; nothing reachable from Reconnect outside makeAuthKey writes authKey / authKeyHash / encrypted", 2)
 	tr := an.NewTracer()
@@ -61,7 +63,8 @@ func c16(c *Ctx) {
 	conds["putmessage-split"] = putMessageSplit(c)
 	conds["gzip-never-built"] = neverAllocated(c, "objects.GzipPacked")
 	conds["mode-is-intermediate"] = modeIsIntermediate(c)
-	n, d, a := c.runCensus("R16.P", fns, map[string]bool{"panic": true, "helper": true, "assert": true}, conds, "C15/R15.C", "C17/R17.P")
+	c.nilTypes("R16.N", fns, 30)
+	n, d, a := c.runCensus("R16.P", fns, map[string]bool{"panic": true, "helper": true, "assert": true, "errpath": true}, conds, "C15/R15.C", "C17/R17.P")
 	r.Extra["census_functions"] = len(fns)
 	r.Extra["census_sites"] = n
 	r.Extra["census_discharged"] = d
@@ -130,9 +133,9 @@ func c16(c *Ctx) {
 								bad = append(bad, f.Name()+"() at "+c.pos(x.Pos()))
 							}
 						case *ssa.Return:
-							if len(x.Results) == 1 && !an.IsNilConst(x.Results[0]) {
-								o := tr.OriginString(x.Results[0])
-								d := an.NewDeps(nil).Of(x.Results[0])
+							if len(x.Results) == 1 && !an.IsNilConst(an.RetVal(x, 0)) {
+								o := tr.OriginString(an.RetVal(x, 0))
+								d := an.NewDeps(nil).Of(an.RetVal(x, 0))
 								if !d.Has("MTProto).MakeRequest") { // only a failed acknowledgement may be returned
 									bad = append(bad, "error return at "+c.pos(x.Pos())+" ("+simplifyOrigin(o)+")")
 								}
@@ -234,7 +237,7 @@ func nativeReturnsErrResponseCode(c *Ctx) bool {
 		for _, in := range b.Instrs {
 			if ret, ok := in.(*ssa.Return); ok && len(ret.Results) == 1 {
 				n++
-				if !strings.HasPrefix(tr.OriginString(ret.Results[0]), "alloc:mtproto.ErrResponseCode") {
+				if !strings.HasPrefix(tr.OriginString(an.RetVal(ret, 0)), "alloc:mtproto.ErrResponseCode") {
 					return false
 				}
 			}
